@@ -1,4 +1,5 @@
 CONSTANTS
+  Variant = "triples"
   MaxVals = 2
   Deep = FALSE
   PNames <- MC_PNames
